@@ -139,6 +139,17 @@ fn shard(ctx: &Ctx, ifaces: &[&'static IfaceDesc], shard: usize, msgs: u64, exha
                     compare(&mut acc, iface, &format!("ws 0x{:02x} at {}", b, pname), &format!("white-space/{}", pname), &canon, &reference, &v);
                 }
             }
+            // runs of one byte, of several lengths (2..=9, 16, 17, 64)
+            for (pi, pname) in POSITIONS.iter().enumerate() {
+                for b in [b' ', b'\t', 0u8, 0x0bu8, b'\r'] {
+                    for k in [2usize, 3, 4, 5, 6, 7, 8, 9, 12, 16, 17, 64] {
+                        let mut st = Style::plain();
+                        set_ws(&mut st, pi, vec![b; k]);
+                        let v = ast.render(&st);
+                        compare(&mut acc, iface, &format!("run of {} x 0x{:02x} at {}", k, b, pname), &format!("white-space-run/{}", pname), &canon, &reference, &v);
+                    }
+                }
+            }
             // CR LF
             let mut st = Style::plain();
             st.crlf = true;
@@ -216,7 +227,15 @@ pub fn run(ctx: &Ctx) -> PropResult {
         distinct.extend(acc.distinct);
         cells.extend(acc.ws_cells);
         for (k, v) in acc.by_variation {
-            let key = if k.starts_with("ws 0x") { "single white-space byte".to_string() } else { k };
+            let key = if k.starts_with("ws 0x") {
+                "single white-space byte".to_string()
+            }
+            else if k.starts_with("run of ") {
+                "run of one white-space byte (2..64 long)".to_string()
+            }
+            else {
+                k
+            };
             *by_var.entry(key).or_default() += v;
         }
         msgs += acc.msgs;
